@@ -111,6 +111,14 @@ type Session struct {
 	mu            sync.Mutex
 	closed        bool
 	attrs         map[interface{}]interface{}
+	failWrites    int // the next n writes fail although the session stays open
+}
+
+// FailWrites makes the next n writes on the session fail (the session stays open).
+func (s *Session) FailWrites(n int) {
+	s.mu.Lock()
+	s.failWrites = n
+	s.mu.Unlock()
 }
 
 func (s *Session) IsClosed() bool {
@@ -162,6 +170,15 @@ func (s *Session) WritePkg(pkg interface{}, timeout time.Duration) (int, int, er
 		return 0, 0, fmt.Errorf("faketc: session closed")
 	}
 	Point(fmt.Sprintf("send %T", msg.Body))
+	s.mu.Lock()
+	fail := s.failWrites > 0
+	if fail {
+		s.failWrites--
+	}
+	s.mu.Unlock()
+	if fail {
+		return 0, 0, fmt.Errorf("faketc: write failed (injected)")
+	}
 	return s.tc.receive(s, msg)
 }
 
